@@ -47,6 +47,7 @@ type VC struct {
 	oblNames    map[string]int
 	globals     map[string]Term
 	lateDecls   []string
+	noDefine    bool
 	ifaces      map[string]types.Type
 }
 
@@ -98,8 +99,8 @@ func (vc *VC) comment(s string) {
 
 // define names a term so later formulas stay small.
 func (vc *VC) define(hint string, t Term) Term {
-	if len(t.S) < 48 || strings.Contains(t.S, "?") {
-		return t // small, or mentions a bound variable
+	if len(t.S) < 48 || strings.Contains(t.S, "?") || vc.noDefine {
+		return t // small, or mentions a bound variable, or a dry run wants pre-loop terms
 	}
 	c := vc.fresh(hint, t.Sort)
 	vc.assume(Eq(c, t))
@@ -243,7 +244,30 @@ func storePath(base Term, idxs []Term, v Term) Term {
 	return Store(base, idxs[0], inner)
 }
 
+// arrayObject rewrites a pointer into a free-standing array object (element-heap row) as an element pointer.
+func arrayObject(p PtrV) (PtrV, bool) {
+	if p.Kind != rootRef {
+		return p, false
+	}
+	arr, ok := under(p.RootTy).(*types.Array)
+	if !ok || len(p.Steps) == 0 || p.Steps[0].Field >= 0 {
+		return p, false
+	}
+	n := IntLit(arr.Len())
+	q := PtrV{Ty: p.Ty, Kind: rootElem, Slice: MkSlice(p.Ref, IntLit(0), n, n), Idx: p.Steps[0].Idx, RootTy: arr.Elem()}
+	q.Steps = append([]Step(nil), p.Steps[1:]...)
+	return q, true
+}
+
 func (ex *Exec) load(p PtrV, st *State) Val {
+	if q, ok := arrayObject(p); ok {
+		p = q
+	} else if arr, isArr := under(p.RootTy).(*types.Array); isArr && p.Kind == rootRef && len(p.Steps) == 0 && !isStruct(arr.Elem()) {
+		// the whole array: the row of the element heap
+		name, _ := elemHeap(arr.Elem(), nil)
+		h := st.heap(name, ArraySort(ArraySort(sortOf(arr.Elem()))))
+		return Scalar{ex.vc.define("row", Select(h, p.Ref)), p.RootTy}
+	}
 	t := p.pointee()
 	if isStruct(t) {
 		s := under(t).(*types.Struct)
@@ -295,6 +319,17 @@ func (ex *Exec) load(p PtrV, st *State) Val {
 }
 
 func (ex *Exec) store(p PtrV, v Val, st *State) {
+	if q, ok := arrayObject(p); ok {
+		p = q
+	} else if arr, isArr := under(p.RootTy).(*types.Array); isArr && p.Kind == rootRef && len(p.Steps) == 0 && !isStruct(arr.Elem()) {
+		name, _ := elemHeap(arr.Elem(), nil)
+		srt := ArraySort(ArraySort(sortOf(arr.Elem())))
+		h := st.heap(name, srt)
+		nh := ex.vc.fresh(name, srt)
+		ex.vc.assume(Eq(nh, Store(h, p.Ref, ex.scalar(v))))
+		st.heaps[name] = nh
+		return
+	}
 	t := p.pointee()
 	if isStruct(t) {
 		s := under(t).(*types.Struct)
@@ -348,7 +383,23 @@ func (ex *Exec) store(p PtrV, v Val, st *State) {
 		nh := ex.vc.fresh(name, srt)
 		ex.vc.assume(Eq(nh, Store(h, arr, Store(row, pos, nv))))
 		st.heaps[name] = nh
+		ex.mirrorView(arr, name, st)
 	}
+}
+
+// mirrorView propagates a write through a slice view of an array-typed field back to the field.
+func (ex *Exec) mirrorView(arr Term, heapName string, st *State) {
+	place, ok := ex.views[arr.S]
+	if !ok {
+		return
+	}
+	a := under(place.pointee()).(*types.Array)
+	name, _ := elemHeap(a.Elem(), nil)
+	if name != heapName {
+		return
+	}
+	h := st.heap(name, ArraySort(ArraySort(sortOf(a.Elem()))))
+	ex.storeTracked(place, Scalar{ex.vc.define("row", Select(h, arr)), place.pointee()}, st)
 }
 
 func (ex *Exec) updateVal(cur Val, steps []Step, v Val) Val {
@@ -376,6 +427,9 @@ func (ex *Exec) scalar(v Val) Term {
 	case PtrV:
 		if x.Kind == rootRef && len(x.Steps) == 0 {
 			return x.Ref
+		}
+		if arr, ok := under(x.pointee()).(*types.Array); ok && ex.curState != nil && !isStruct(arr.Elem()) {
+			return ex.arrayBacking(x, arr, ex.curState)
 		}
 		panic(unsupported("interior or local pointer used as a first-class value (%s)", shortType(x.Ty)))
 	case FuncV:
